@@ -29,6 +29,7 @@ type c15Case struct {
 }
 
 var c15Crash = reg("C15", "c15-nocrash", checkC15)
+var c15Unmarshal = reg("C15", "c15-unmarshal-target", checkC19Bad)
 
 const callDeadline = 20 * time.Second
 
@@ -317,6 +318,16 @@ func TestC15(t *testing.T) {
 			}
 		}
 		c15Crash.run(t, c)
+	})
+	// arbitrary Unmarshal targets: an error, never a panic (the oracle is C19's)
+	runProp(t, "unmarshal-targets", 1500, 50000, func(t *rapid.T) {
+		kinds := []string{"nil", "non-pointer struct", "nil pointer", "pointer to nil pointer", "map", "array", "chan", "func", "2-D slice", "unexported tagged field", "interface field", "map field", "array field", "int", "string",
+			"pointer to nil slice pointer", "pointer to pointer to nil struct pointer", "pointer to nil pointer to slice of structs"}
+		c := &c19BadCase{Events: xmodel.Gen(t, c19Doc()), Target: kinds[rapid.IntRange(0, len(kinds)-1).Draw(t, "kind")],
+			Select: pick(t, "select", []string{"/*", "//a", "/nosuch", "//*", "1", "'s'", "true()", "//@*", "//text()"})}
+		st.Class("unmarshal " + c.Target)
+		st.NonTrivial("unmarshal|" + c.Target + "|" + c.Select)
+		c15Unmarshal.run(t, c)
 	})
 	runProp(t, "pairs", 6000, 500000, func(t *rapid.T) {
 		// expression x generated document
